@@ -155,7 +155,14 @@ IFStatement * IFStatement::parse(Parser& p, Context& ctx)
         delete exp;
         throw ParseError(EXC_PARSE_OTHER_S, "Missing THEN keyword in IF statement.", t);
       }
-      Executable * exec = parse_clause(p, ctx, s);
+      Executable * exec = nullptr;
+      try { exec = parse_clause(p, ctx, s); }
+      catch (ParseError& pe)
+      {
+        /* the condition isn't owned by the statement yet */
+        delete exp;
+        throw;
+      }
       s->_rules.push_back(std::make_pair(exp, exec));
       t = p.pop();
       if (t->text == KEYWORDS[STMT_ELSIF])
